@@ -980,6 +980,7 @@ func (r *Reader) parseBodyElementsInOrder(data []byte) error {
 	decoder := xml.NewDecoder(strings.NewReader(string(data)))
 	var inBody bool
 	var paraIndex, tableIndex int
+	depth := 0 // element nesting below <w:body>
 
 	for {
 		token, err := decoder.Token()
@@ -992,10 +993,18 @@ func (r *Reader) parseBodyElementsInOrder(data []byte) error {
 			// Check if we're entering the body
 			if t.Name.Local == "body" {
 				inBody = true
+				depth = 0
 				continue
 			}
 
 			if !inBody {
+				continue
+			}
+
+			// Only direct children of the body correspond to Body.Paragraphs / Body.Tables;
+			// paragraphs nested in table cells (or other containers) must not be counted.
+			depth++
+			if depth > 1 {
 				continue
 			}
 
@@ -1021,6 +1030,8 @@ func (r *Reader) parseBodyElementsInOrder(data []byte) error {
 		case xml.EndElement:
 			if t.Name.Local == "body" {
 				inBody = false
+			} else if inBody {
+				depth--
 			}
 		}
 	}
